@@ -5,6 +5,7 @@ import (
 	"go/ast"
 	"go/token"
 	"go/types"
+	"regexp"
 	"strings"
 )
 
@@ -389,6 +390,202 @@ func init() {
 								obs = append(obs, mkOb(c, "TIME.strict-parse", u, construct, ce, Violated, "time.Parse with an RFC 3339 layout is lenient and nothing stricter looked at `"+str+"` first: \"2000-01-01T1:02:03Z\", \"...00,5Z\" and \"...+24:60\" are accepted", true))
 							}
 						}
+					}
+				}
+			}
+			return obs
+		}})
+}
+
+// TIME.offset-range — C15 ("out-of-range fields are rejected"): time.Parse
+// accepts a zone offset such as +24:60, so the strictness check in front of it
+// must refuse one.  The check can do that in code (comparing the offset's
+// digits with "23" and "59") or in the shape pattern itself; when it is the
+// pattern, the pattern is a constant and what it matches is decidable here.
+func init() {
+	register(&Rule{ID: "TIME.offset-range", Floor: 1,
+		Doc: "the RFC 3339 strictness check of libtime refuses every numeric zone offset whose hour exceeds 23 or whose minute exceeds 59: either it compares the offset fields with the constants \"23\" and \"59\" and returns an error, or the constant shape pattern it matches against (compiled here from its literal) rejects all 10,000 two-digit hour/minute combinations outside that range",
+		Run: func(c *Ctx) []Obligation {
+			const rid = "TIME.offset-range"
+			fn, fd, pkg := c.LookupFunc("lisp/lisplib/libtime.checkRFC3339")
+			if fn == nil {
+				return []Obligation{anchorMissing(rid, "libtime.checkRFC3339")}
+			}
+			u := FuncUnit{fn, fd, pkg}
+			info := pkg.TypesInfo
+			// (a) explicit comparison with "23" and "59" guarding an error return
+			has23, has59 := false, false
+			ast.Inspect(fd.Body, func(n ast.Node) bool {
+				is, ok := n.(*ast.IfStmt)
+				if !ok || len(is.Body.List) == 0 {
+					return true
+				}
+				if _, isRet := is.Body.List[len(is.Body.List)-1].(*ast.ReturnStmt); !isRet {
+					return true
+				}
+				ast.Inspect(is.Cond, func(m ast.Node) bool {
+					be, ok := m.(*ast.BinaryExpr)
+					if !ok || be.Op != token.GTR && be.Op != token.GEQ && be.Op != token.LSS && be.Op != token.LEQ {
+						return true
+					}
+					for _, side := range []ast.Expr{be.X, be.Y} {
+						if s, ok := constStringVal(info, side); ok {
+							if s == "23" || s == "24" {
+								has23 = true
+							}
+							if s == "59" || s == "60" {
+								has59 = true
+							}
+						}
+					}
+					return true
+				})
+				return true
+			})
+			if has23 && has59 {
+				return []Obligation{mkOb(c, rid, u, "zone offset range", fd, Proved, "the offset's hour and minute are compared with \"23\" and \"59\" and an error is returned", true)}
+			}
+			// (b) the shape pattern
+			var pat string
+			var patNode ast.Node
+			ast.Inspect(fd.Body, func(n ast.Node) bool {
+				ce, ok := n.(*ast.CallExpr)
+				if !ok {
+					return true
+				}
+				se, ok := ast.Unparen(ce.Fun).(*ast.SelectorExpr)
+				if !ok || se.Sel.Name != "MatchString" {
+					return true
+				}
+				v, ok := identObj(info, se.X).(*types.Var)
+				if !ok {
+					return true
+				}
+				for _, f := range pkg.Syntax {
+					ast.Inspect(f, func(k ast.Node) bool {
+						vs, ok := k.(*ast.ValueSpec)
+						if !ok || len(vs.Names) != 1 || info.Defs[vs.Names[0]] != v || len(vs.Values) != 1 {
+							return true
+						}
+						if mc, ok := ast.Unparen(vs.Values[0]).(*ast.CallExpr); ok && stdFuncCalled(info, mc, "regexp", "MustCompile") && len(mc.Args) == 1 {
+							if s, ok := constStringVal(info, mc.Args[0]); ok {
+								pat, patNode = s, vs
+							}
+						}
+						return false
+					})
+				}
+				return true
+			})
+			if pat == "" {
+				return []Obligation{mkOb(c, rid, u, "zone offset range", fd, Violated, "the strictness check neither compares the offset fields with \"23\"/\"59\" nor matches a constant pattern this rule can read: time.Parse then accepts offsets such as +24:60", true)}
+			}
+			re, err := regexp.Compile(pat)
+			if err != nil {
+				return []Obligation{mkOb(c, rid, u, "zone offset range", patNode, Undecided, "the shape pattern does not compile: "+err.Error(), true)}
+			}
+			for _, sign := range []string{"+", "-"} {
+				for h := 0; h < 100; h++ {
+					for m := 0; m < 100; m++ {
+						if h <= 23 && m <= 59 {
+							continue
+						}
+						s := fmt.Sprintf("2000-01-01T00:00:00%s%02d:%02d", sign, h, m)
+						if re.MatchString(s) {
+							return []Obligation{mkOb(c, rid, u, "zone offset range", patNode, Violated, "no range comparison is made in code and the shape pattern matches "+s+" (offset hour above 23 or minute above 59): time.Parse falls back to its lenient offset handling and the out-of-range timestamp is accepted", true)}
+						}
+					}
+				}
+			}
+			return []Obligation{mkOb(c, rid, u, "zone offset range", patNode, Proved, "the shape pattern rejects all out-of-range two-digit offsets", true)}
+		}})
+
+	// TIME.no-unixnano — C15 ("round trip; order agrees with the calendar"): Time.UnixNano
+	// is documented as undefined for instants that do not fit an int64 count of
+	// nanoseconds (before 1677-09-21 or after 2262-04-11); RFC 3339 years run
+	// from 0000 to 9999.  A time value that passes through UnixNano silently
+	// becomes a different instant outside that window.
+	register(&Rule{ID: "TIME.no-unixnano", Floor: 0,
+		Doc: "nothing in libtime calls (time.Time).UnixNano / UnixMicro / UnixMilli or rebuilds a time from such a count (time.Unix(0, …), UnixMicro, UnixMilli): time values keep Go's full range, so parse∘format is the identity and comparisons agree with the calendar for every RFC 3339 year.  (Zero sites today; the seeded change C15-r3m3 is the standing positive example re-checked by selftest.)",
+		Run: func(c *Ctx) []Obligation {
+			const rid = "TIME.no-unixnano"
+			var obs []Obligation
+			for _, u := range c.Funcs(func(p string) bool { return rel(p) == "lisp/lisplib/libtime" }) {
+				if u.Decl == nil || u.Decl.Body == nil {
+					continue
+				}
+				info := u.Pkg.TypesInfo
+				ord := &ordinal{}
+				for _, ce := range callsIn(u.Decl.Body, true) {
+					f := Callee(info, ce)
+					if f == nil || f.Pkg() == nil || f.Pkg().Path() != "time" {
+						continue
+					}
+					switch f.Name() {
+					case "UnixNano", "UnixMicro", "UnixMilli":
+						obs = append(obs, mkOb(c, rid, u, ord.next("time."+f.Name()), ce, Violated, "a time value is reduced to an int64 count: for instants before 1677-09-21 or after 2262-04-11 the count wraps, so a timestamp such as 0001-01-01T00:00:00Z comes back as a different date, orders wrongly against its neighbours and adds wrongly", true))
+					}
+				}
+			}
+			return obs
+		}})
+}
+
+// CTX.own-first — C15 / C04 ("sleep is bounded by the context of the evaluation
+// that runs it"): LEnv.Context() is what time:sleep and every other
+// context-aware builtin ask.  The answer is the context of THIS environment,
+// which the call funnel installs for the duration of the evaluation; a context
+// stored on the root (WithContext at construction) is older and must not win.
+func init() {
+	register(&Rule{ID: "CTX.own-first", Floor: 1,
+		Doc: "LEnv.Context() returns the receiver's own evalCtx whenever it is set: any other context it can return (a parent's, the root's, a default) is returned only over an edge that entails the receiver's evalCtx is nil — the per-call context of the running evaluation is never overridden by a longer-lived one",
+		Run: func(c *Ctx) []Obligation {
+			const rid = "CTX.own-first"
+			fn, fd, pkg := c.LookupFunc("lisp.(*LEnv).Context")
+			fld := c.LookupField("lisp.LEnv.evalCtx")
+			if fn == nil || fld == nil || fd.Recv == nil || len(fd.Recv.List) == 0 || len(fd.Recv.List[0].Names) == 0 {
+				return []Obligation{anchorMissing(rid, "LEnv.Context / LEnv.evalCtx")}
+			}
+			u := FuncUnit{fn, fd, pkg}
+			info := pkg.TypesInfo
+			recv := info.Defs[fd.Recv.List[0].Names[0]]
+			isOwn := func(e ast.Expr) bool {
+				se, ok := ast.Unparen(e).(*ast.SelectorExpr)
+				return ok && FieldOfSelector(info, se) == fld && identObj(info, se.X) == recv
+			}
+			fc := c.cfgOf(u, nil)
+			cls := func(e ast.Expr) (string, bool) {
+				be, ok := ast.Unparen(e).(*ast.BinaryExpr)
+				if !ok || be.Op != token.EQL && be.Op != token.NEQ {
+					return "", false
+				}
+				isNilE := func(a ast.Expr) bool { tv, ok := info.Types[a]; return ok && tv.IsNil() }
+				if isOwn(be.X) && isNilE(be.Y) || isOwn(be.Y) && isNilE(be.X) {
+					return "ownnil", be.Op == token.NEQ
+				}
+				return "", false
+			}
+			cut := fc.edgesEntailing(cls, func(v map[string]bool) bool { return v["$has:ownnil"] && v["ownnil"] })
+			var obs []Obligation
+			ord := &ordinal{}
+			for _, b := range fc.G.Blocks {
+				if !fc.Live(b) {
+					continue
+				}
+				for _, n := range b.Nodes {
+					rs, ok := n.(*ast.ReturnStmt)
+					if !ok || len(rs.Results) != 1 {
+						continue
+					}
+					if isOwn(rs.Results[0]) {
+						obs = append(obs, mkOb(c, rid, u, ord.next("return own context"), rs, Proved, "the receiver's own context", false))
+						continue
+					}
+					construct := ord.next("return " + types.ExprString(rs.Results[0]))
+					if fc.reachableAvoiding(b, cut) {
+						obs = append(obs, mkOb(c, rid, u, construct, rs, Violated, "another context can be returned while the receiver's own evalCtx is set: in an environment built with WithContext(appCtx), a time:sleep inside a function called under LoadStringContext / FunCallContext with a request deadline waits on appCtx and ignores the request's deadline and cancellation", true))
+					} else {
+						obs = append(obs, mkOb(c, rid, u, construct, rs, Proved, "only when the receiver has no context of its own", true))
 					}
 				}
 			}
